@@ -4,6 +4,7 @@
   sequences are unbounded.
 -/
 import Ptk.Props.C14Scan
+set_option linter.unusedSimpArgs false
 namespace Ptk.C14
 open Ptk.Py
 
@@ -1533,5 +1534,117 @@ theorem key_storage (v : Validator) (s : St) (k : Key) :
 theorem inv_keyStep (v : Validator) (s : St) (k : Key) (h : Inv v s) : Inv v (keyStep v s k).1 := by
   rw [keyStep_eq_run]
   exact inv_run v _ s h (by intro op ho; simp at ho; rcases ho with rfl | rfl; exact keyOp_ok k; trivial)
+
+/-! ## 18. The vi bindings are the same operations plus a cursor fix -/
+
+/-- the buffer operation behind a vi key in the given mode (`none`: only the mode changes) -/
+def viKeyOp (nav : Bool) : ViKey → Option Op
+  | .char c => some (.insert [c])
+  | .backspace => some (.delBefore 1)
+  | .escape => if nav then none else some .left
+  | .insertI => none
+  | .appendA => some .right
+  | .k a => some (.autoUp a true)
+  | .j a => some (.autoDown a true)
+  | .up a => some (.autoUp a false)
+  | .down a => some (.autoDown a false)
+  | .gotoG n => some (.goTo (n - 1))
+  | .enter => some (.accept true)
+
+theorem viHandler_st (v : Validator) (vs : ViSt) (k : ViKey) :
+    (viHandler v vs k).1 = match viKeyOp vs.nav k with
+      | none => vs.st
+      | some op => (step v vs.st op).1 := by
+  cases k <;> simp [viHandler, viKeyOp, step]
+  · split <;> rfl
+
+theorem viFix_frame (s : St) : Frame s (viFix s) ∧ (viFix s).idx = s.idx ∧ (viFix s).text = s.text ∧
+    (viFix s).search = s.search ∧ (viFix s).vstate = s.vstate := by
+  simp only [viFix]
+  split
+  · have := setCursorPos_frame s ((s.cur : Int) - 1)
+    refine ⟨?_, by simp, by simp [St.text], by simp, by simp⟩
+    simpa [Frame] using this
+  · exact ⟨Frame.refl s, rfl, rfl, rfl, rfl⟩
+
+theorem viFix_wf (s : St) (h : WF s) : WF (viFix s) := by
+  simp only [viFix]
+  split
+  · have := setCursorPos_wf s ((s.cur : Int) - 1) h.1
+    exact ⟨this.1, this.2⟩
+  · exact h
+
+theorem viKeyOp_ok (nav : Bool) (k : ViKey) : ∀ op, viKeyOp nav k = some op → op.ok := by
+  intro op h
+  cases k <;> simp [viKeyOp] at h <;> (try (subst h; simp [Op.ok]))
+  · obtain ⟨_, h⟩ := h; subst h; simp [Op.ok]
+
+theorem viKeyOp_appends (nav : Bool) (k : ViKey) : ∀ op, viKeyOp nav k = some op →
+    op.appends = true → k = .enter := by
+  intro op h ha
+  cases k <;> simp [viKeyOp] at h <;> (try (subst h; simp [Op.appends] at ha)) <;> (try rfl)
+  · obtain ⟨_, h⟩ := h; subst h; simp [Op.appends] at ha
+
+/-- **vi_keys_invariants** — every vi key keeps well-formedness, the genuineness of the cached
+    verdict and `get_strings() = stored`. -/
+theorem inv_viKeyStep (v : Validator) (vs : ViSt) (k : ViKey) (h : Inv v vs.st) :
+    Inv v (viKeyStep v vs k).1.st := by
+  have h1 : Inv v (viHandler v vs k).1 := by
+    rw [viHandler_st]
+    cases ho : viKeyOp vs.nav k with
+    | none => exact h
+    | some op => exact inv_step v vs.st op h (viKeyOp_ok vs.nav k op ho)
+  have h2 : Inv v (if (viHandler v vs k).2.1 then viFix (viHandler v vs k).1 else (viHandler v vs k).1) := by
+    split
+    · obtain ⟨f1, f2, f3, f4, f5⟩ := viFix_frame (viHandler v vs k).1
+      exact ⟨viFix_wf _ h1.1, vinv_same v _ _ f5 f3 h1.2.1,
+        fun hl => by rw [f1.2.1, f1.2.2.1]; exact h1.2.2 (f1.2.2.2.1 ▸ hl)⟩
+    · exact h1
+  have := inv_step v _ .asyncValidate h2 trivial
+  simpa [viKeyStep, step] using this
+
+/-- **vi_keys_preserve_history** — no vi key other than Enter writes to the history; Enter
+    appends at most the text on screen. -/
+theorem viKey_storage (v : Validator) (vs : ViSt) (k : ViKey) :
+    ∃ suf, (suf = [] ∨ suf = [vs.st.text]) ∧ (viKeyStep v vs k).1.st.storage = vs.st.storage ++ suf ∧
+      (k ≠ .enter → suf = []) := by
+  have hs : (viKeyStep v vs k).1.st.storage = (viHandler v vs k).1.storage := by
+    simp only [viKeyStep]
+    rw [(asyncValidate_frame v _).2.2.1]
+    split
+    · exact (viFix_frame _).1.2.2.1
+    · rfl
+  rw [hs, viHandler_st]
+  cases ho : viKeyOp vs.nav k with
+  | none => exact ⟨[], by simp, by simp, by simp⟩
+  | some op =>
+    obtain ⟨suf, a1, a2, a3⟩ := step_storage v vs.st op
+    refine ⟨suf, a1, a2, ?_⟩
+    intro hk
+    apply a3
+    cases hb : op.appends
+    · rfl
+    · exact absurd (viKeyOp_appends vs.nav k op ho hb) hk
+
+/-- a navigation key in vi mode changes no working copy -/
+theorem viKey_nav_work (v : Validator) (vs : ViSt) (k : ViKey)
+    (hk : ∀ op, viKeyOp vs.nav k = some op → op.isNav = true) :
+    (viKeyStep v vs k).1.st.work = vs.st.work := by
+  have hs : (viKeyStep v vs k).1.st.work = (viHandler v vs k).1.work := by
+    simp only [viKeyStep]
+    rw [(asyncValidate_frame v _).1]
+    split
+    · exact (viFix_frame _).1.1
+    · rfl
+  rw [hs, viHandler_st]
+  cases ho : viKeyOp vs.nav k with
+  | none => rfl
+  | some op => exact (nav_frame v vs.st op (hk op ho)).1
+
+-- vi session: history [one, two], Esc, k, k lands on "one" with the cursor on its first character
+example : let vs0 : ViSt := viPromptStart { st := St.fresh ["one".toList, "two".toList] false false, nav := false } []
+    let vs := (viKeyStep exV (viKeyStep exV (viKeyStep exV vs0 .escape).1 (.k 1)).1 (.k 1)).1
+    vs.nav = true ∧ vs.st.idx = 0 ∧ vs.st.text = "one".toList ∧ vs.st.cur = 0 ∧
+    vs.st.storage = ["one".toList, "two".toList] := by decide
 
 end Ptk.C14
